@@ -32,7 +32,11 @@ def _run_on(prop: str, prog: Program):
     from .__main__ import run_rules
     try:
         ctx = run_rules(prop, prog, "quick", quiet=True)
-        return ("ok", sorted({f.key for f in ctx.findings}), [f"{f.rule}: {f.message}" for f in ctx.findings])
+        keys = sorted({f.key for f in ctx.findings})
+        msgs = [f"{f.rule}: {f.message}" for f in ctx.findings]
+        if ctx.analysis_errors and not keys:
+            return ("analysis-error", [], ctx.analysis_errors)
+        return ("ok", keys, msgs + ctx.analysis_errors)
     except AnalysisError as e:
         return ("analysis-error", [], [str(e)])
     except Exception as e:  # pragma: no cover
